@@ -73,8 +73,16 @@ struct CliWorld : World {
         default: return "zz-" + std::to_string(idx % 7) + ".raw";
         }
     }
+    // idx 0..9: ten unrelated passwords; idx 10..19: the neighbour of password(idx - 10) - the same string with its last
+    // character changed (even idx) or with one character appended (odd idx), so the two differ only at the very end
     static std::string password(int64_t idx)
     {
+        if (idx >= 10) {
+            std::string b = password(idx - 10);
+            if ((idx & 1) || b.empty()) b += 'Q';
+            else b[b.size() - 1] = b[b.size() - 1] == 'Z' ? 'Y' : 'Z';
+            return b;
+        }
         static const char *alpha = "abcdefghijklmnopqrstuvwxyzABCDEFGHIJKLMNOPQRSTUVWXYZ0123456789%$ -_";
         size_t len;
         switch (idx % 10) {
@@ -160,7 +168,7 @@ struct CliWorld : World {
             if (r.below(100) < 3) { pl.add("usage", {(int64_t)r.below(8), nm}); continue; }
             if (r.below(100) < hostile_pct) { pl.add("hostile", {(int64_t)r.below(10), (int64_t)r.below(40), (int64_t)(r.next() >> 1)}); continue; }
             if (c < 30) {
-                int64_t pw = r.chance(1, 8) ? (int64_t)r.below(10) : r.pickv({0, 1, 2, 3, 4, 7, 8});
+                int64_t pw = r.chance(1, 6) ? (int64_t)r.below(20) : r.pickv({0, 1, 2, 3, 4, 7, 8});
                 // flags: bit0 explicit -e, bit1 -o given, bit2 keyfile instead of -p, bit3 stdin/stdout
                 int64_t flags = (int64_t)r.below(8) | (r.chance(1, 10) ? 8 : 0);
                 std::vector<int64_t> a = {nm, pw, flags, (int64_t)r.below(4), (int64_t)(r.chance(1, 10) && faulty ? 1 + r.below(2) : 0)};
@@ -170,7 +178,8 @@ struct CliWorld : World {
                 encrypted.push_back({nm, pw});
             } else if (c < 60 && !encrypted.empty()) {
                 auto e = encrypted[r.below(encrypted.size())];
-                int64_t pw = r.chance(1, 6) ? (int64_t)r.below(10) : e.second;
+                // wrong password: an unrelated one, or the neighbour of the right one (differs only in its last character)
+                int64_t pw = r.chance(1, 6) ? (r.chance(1, 2) ? (int64_t)r.below(10) : (e.second + 10) % 20) : e.second;
                 int64_t flags = (int64_t)r.below(8) | (r.chance(1, 10) ? 8 : 0);
                 std::vector<int64_t> a = {e.first, pw, flags, (int64_t)r.below(4), 0};
                 gen_fault(r, a, faulty, true);
